@@ -99,7 +99,7 @@ theorem C02_public_nodes (cfg : Cfg) (hv : cfg.virt = false) (shift : Rat) (ci :
     intro i hi
     obtain ⟨k, hk, rfl⟩ := List.mem_map.1 hi
     have hk' := List.mem_range.1 hk
-    have := hs.fresh (k + c.1.nodes.size) (by omega) (by omega)
+    have := (hs.fresh (k + c.1.nodes.size) (by omega) (by omega)).1
     simp [this, hv]
   rw [h1, h2, List.map_nil, List.append_nil]
   apply List.map_congr_left
@@ -129,7 +129,7 @@ theorem C02_public_nodes_with_helpers (cfg : Cfg) (hv : cfg.virt = true) (shift 
     obtain ⟨i, hi, rfl⟩ := List.mem_map.1 hx
     obtain ⟨k, hk, rfl⟩ := List.mem_map.1 hi
     have hk' := List.mem_range.1 hk
-    exact hs.fresh (k + c.1.nodes.size) (by omega) (by omega)
+    exact (hs.fresh (k + c.1.nodes.size) (by omega) (by omega)).1
 
 example : (PopulateRename.populate [("a", "b"), ("b", "b"), ("c", "a"), ("a", "b")]).edges = [(0, 1), (1, 1), (2, 0), (0, 1)] := by decide
 example : (PopulateRename.populate [("a", "b"), ("b", "b"), ("c", "a"), ("a", "b")]).ids = ["a", "b", "c"] := by decide
